@@ -64,8 +64,8 @@ TSearch ==
                     key == <<qs, Ev.k, Ev.thr, filt, Ev.p, Ev.agg>>
                 IN /\ Holds(IF Len(qs) = 1 THEN SearchOK(Ev.res, qs[1], Ev.k, Ev.thr, filt, Ev.p)
                                            ELSE MultiOK(Ev.res, qs, Ev.k, Ev.thr, filt, Ev.agg))
-                   \* flushing (or serialising) soft-deleted vectors never changes an answer (exhaustive kinds, full probe)
-                   /\ (prev.key = key /\ Exhaustive /\ (~Clustered \/ Probes(Ev.p) = NList)) => SameUpToTies(Ev.res, prev.res)
+                   \* flushing (or serialising) soft-deleted vectors never changes an answer (flat, pq, ivf / ivfpq at full probe; not claimed for HNSW)
+                   /\ (prev.key = key /\ Kind # "hnsw" /\ (~Clustered \/ Probes(Ev.p) = NList)) => SameUpToTies(Ev.res, prev.res)
                    /\ prev' = [key |-> key, res |-> Ev.res]
 
 TNext == TReset \/ TConstruct \/ TTrain \/ TAdd \/ TRemove \/ TFlush \/ TSave \/ TReload \/ TSearch
